@@ -33,11 +33,9 @@ Definition ranked (d : list (string * list string)) : bool :=
 
 (* ---------- the once-cell machine ---------- *)
 Inductive cell := Uninit | Running (tid : nat) | Done.
-Definition cells := list (string * cell).
-Definition cget (cs : cells) (c : string) : cell :=
-  match find (fun p => String.eqb (fst p) c) cs with Some p => snd p | None => Uninit end.
+Definition cells := string -> cell.
 Definition cset (cs : cells) (c : string) (v : cell) : cells :=
-  map (fun p => if String.eqb (fst p) c then (fst p, v) else p) cs.
+  fun x => if String.eqb x c then v else cs x.
 
 (* a thread: the stack of initialisers it is running (innermost first) and the cells it still wants *)
 Record thread := { stack : list string; pending : list string }.
@@ -46,7 +44,7 @@ Record mstate := { tbl : cells; threads : list thread; inits : list string (* co
 Definition set_thread (ts : list thread) (t : nat) (th : thread) : list thread :=
   firstn t ts ++ th :: skipn (S t) ts.
 
-Definition is_done (cs : cells) (c : string) : bool := match cget cs c with Done => true | _ => false end.
+Definition is_done (cs : cells) (c : string) : bool := match cs c with Done => true | _ => false end.
 
 (* one step of thread t; None = not enabled (finished or blocked) *)
 Definition mstep (d : list (string * list string)) (m : mstate) (t : nat) : option mstate :=
@@ -60,7 +58,7 @@ Definition mstep (d : list (string * list string)) (m : mstate) (t : nat) : opti
         Some {| tbl := cset (tbl m) c Done; threads := set_thread (threads m) t {| stack := rest; pending := pending th |};
                 inits := inits m ++ [c] |}
       | Some x =>
-        match cget (tbl m) x with
+        match tbl m x with
         | Uninit => Some {| tbl := cset (tbl m) x (Running t);
                             threads := set_thread (threads m) t {| stack := x :: stack th; pending := pending th |};
                             inits := inits m |}
@@ -71,7 +69,7 @@ Definition mstep (d : list (string * list string)) (m : mstate) (t : nat) : opti
       match pending th with
       | [] => None
       | c :: rest =>
-        match cget (tbl m) c with
+        match tbl m c with
         | Done => Some {| tbl := tbl m; threads := set_thread (threads m) t {| stack := []; pending := rest |}; inits := inits m |}
         | Uninit => Some {| tbl := cset (tbl m) c (Running t);
                             threads := set_thread (threads m) t {| stack := [c]; pending := pending th |}; inits := inits m |}
@@ -81,7 +79,8 @@ Definition mstep (d : list (string * list string)) (m : mstate) (t : nat) : opti
     end
   end.
 
-Definition finished (m : mstate) : bool := forallb (fun th => match stack th, pending th with [], [] => true | _, _ => false end) (threads m).
+Definition thread_finished (th : thread) : bool := match stack th, pending th with [], [] => true | _, _ => false end.
+Definition finished (m : mstate) : bool := forallb thread_finished (threads m).
 
 (* run a schedule (list of thread ids; steps of non-enabled threads are skipped) *)
 Fixpoint mrun (d : list (string * list string)) (m : mstate) (sched : list nat) : mstate :=
@@ -90,5 +89,5 @@ Fixpoint mrun (d : list (string * list string)) (m : mstate) (sched : list nat) 
   | t :: rest => match mstep d m t with Some m' => mrun d m' rest | None => mrun d m rest end
   end.
 
-Definition minit (d : list (string * list string)) (wants : list (list string)) : mstate :=
-  {| tbl := map (fun c => (c, Uninit)) (names d); threads := map (fun w => {| stack := []; pending := w |}) wants; inits := [] |}.
+Definition minit (wants : list (list string)) : mstate :=
+  {| tbl := fun _ => Uninit; threads := map (fun w => {| stack := []; pending := w |}) wants; inits := [] |}.
